@@ -77,6 +77,9 @@ class CallMixin:
             if isinstance(recv, VRef):
                 fn = self.repo.find_method('Pair', f.attr)
                 if fn is not None: return self.repo_callee(fn, recv)
+            if isinstance(recv, VExt) and recv.tag == 'attr' and isinstance(recv.data[0], VExt):
+                key = recv.data[0].tag + '.' + recv.data[1] + '.' + f.attr
+                if key in self.ext_models: return ('model', self.ext_models[key])
             if isinstance(recv, VExt):
                 key = recv.tag + '.' + f.attr
                 if key in self.stmt_models: return ('stmtmodel', self.stmt_models[key])
@@ -198,8 +201,11 @@ class CallMixin:
                 di = i - (len(names) - len(defaults))
                 if di < 0: raise Undecided('missing argument %s in call to %s' % (n, fn.key))
                 cenv[n] = self.ev(defaults[di], p)
+        self.coerce_obligations = []
         for n, k in c.get('params', {}).items():
             if n in cenv: cenv[n] = self.coerce(cenv[n], k)
+        for i, t in enumerate(self.coerce_obligations):
+            self.vc('call-pre/%s/argument-is-a-list@%d' % (fn.qualname, line), p, t, kind='call-pre', line=line)
         site = self.contract.get('call_ghost', {}).get(fn.qualname, {})
         for g, k in c.get('ghost', {}).items():
             if g in site: cenv[g] = self.spec_value(site[g], p)
@@ -217,6 +223,13 @@ class CallMixin:
             for m in c.get('modifies', []):
                 self.havoc(self.resolve_mod(m, q), p, '@call%d' % line)
             q.heap = dict(p.heap); q.has = dict(p.has); q.objs = p.objs; q.ghost = p.ghost
+            # the callee's recorded ghost histories are existentially quantified for the caller: fresh arrays per call
+            saved_rk = self.rec_kinds
+            self.rec_kinds = dict(self.rec_kinds)
+            for lc in c.get('loops', {}).values():
+                for nm, (kd, *_r) in lc.get('record', {}).items():
+                    p.ghost['rec:' + nm] = fresh('REC_%s_%s@%d' % (fn.qualname.split('.')[-1], nm, line), z3.ArraySort(I, sort_of(kd)))
+                    self.rec_kinds[nm] = kd
             res = self.make_result(c.get('returns'), fn.qualname + '@%d' % line)
             if res is not None:
                 self.bind_result(q.env, res)
@@ -229,14 +242,29 @@ class CallMixin:
                     p.assume(self.spec_eval(src, q))
             finally:
                 self.old_stack.pop()
+                self.rec_kinds = saved_rk
         finally:
             self.contract, self.defs = saved
+        # lemma uses anchored after this call (the callee's result is visible as `result`)
+        anchor = 'after_call:' + fn.qualname.split('.')[-1]
+        if self.contract.get('use_lemmas', {}).get(anchor):
+            had = p.env.get('result'); p.env['result'] = res if res is not None else VNone()
+            try: self.apply_lemmas(anchor, p)
+            finally:
+                if had is None: p.env.pop('result', None)
+                else: p.env['result'] = had
         return res if res is not None else VNone()
 
     def coerce(self, v, k):
         """Adapt an actual argument to the declared parameter kind (concrete lists -> symbolic lists)."""
         if isinstance(k, tuple) and k[0] == 'list' and isinstance(v, VCList):
             return wrap(k, self.to_elem(k, v))
+        if isinstance(k, tuple) and k[0] == 'list' and isinstance(v, VUnion):
+            # None | list: passing it where a list is required obliges the caller to exclude the other alternatives
+            lists = [(c, x) for c, x in v.alts if isinstance(x, VList) and x.kind == k[1]]
+            if len(lists) == 1:
+                self.coerce_obligations.append(lists[0][0])
+                return lists[0][1]
         return v
 
     def ghost_default(self, g, k, p):
@@ -452,6 +480,6 @@ class CallMixin:
 
 
 BUILTINS = {'len', 'str', 'int', 'float', 'max', 'min', 'abs', 'pow', 'isinstance', 'hasattr', 'list', 'range', 'print'}
-SPECFUNS = {'forall', 'exists', 'implies', 'ite', 'old', 'kind', 'value', 'Sum', 'Count', 'iff', 'forall2', 'tok',
+SPECFUNS = {'prev', 'forall', 'exists', 'implies', 'ite', 'old', 'kind', 'value', 'Sum', 'Count', 'iff', 'forall2', 'tok',
             'select', 'has', 'attr', 'store_len', 'nu', 'Tot', 'alloc', 'real', 'SumR', 'opt_is_none', 'opt_val',
             'has_text', 'ENUM_len', 'rec', 'joined', 'after', 'lam', 'is_list', 'is_int', 'py_int', 'py_head', 'py_tail', 'py_len', 'elems', 'pelems', 'dupfree', 'appended', 'lemma', 'ModelWF', 'unchanged', 'distinct_refs', 'Row', 'LL', 'PL'}
